@@ -39,7 +39,7 @@ func init() {
 			return 324
 		},
 		Rule: "case = one threaded entry point (Compare plain/tips/identical-only, CompareWeighted, FBP, TBE, TBE with moved-taxa statistics) x one " +
-			"workload (8 trees x 12 taxa, 100 x 30, 400 x 60) x one delay policy at the verifhook points (none, random yield/sleep, one slow worker, " +
+			"workload (8 trees x 12 taxa, 100 x 30, 400 x 60; 150 x 40 instead in the quick tier) x one delay policy at the verifhook points (none, random yield/sleep, one slow worker, " +
 			"barrier after the first receive), run with 1 thread and then with 2,3,4,8,16, #trees+5 and #branches+6 threads under the race detector; error cases put an " +
 			"Err item, a duplicate-name tree or a taxon-mismatched tree first, in the middle or last; the commands compare trees (plain, --weighted) and compute support fbp|tbe are run as child processes (-t 1, 4, 16) on a file with one unparsable / duplicate-name / taxon-mismatched tree: non-zero exit, no crash, no blocked process. Monitors: per-id equality with the 1-thread " +
 			"records, exactly-once multiset checker over results and hook events, goroutine-state deadlock detector, race-log parser. " +
@@ -442,6 +442,9 @@ func runC11(c *Ctx, idx int, o *Obs) {
 	if k < nNormal {
 		fn := c11Fns[k%len(c11Fns)]
 		wl := c11Workloads[(k/len(c11Fns))%len(c11Workloads)]
+		if !c.Thorough() && wl.trees == 400 {
+			wl.trees, wl.taxa = 150, 40 // the quick tier keeps the largest workload short
+		}
 		pol := c11Policies[(k/(len(c11Fns)*len(c11Workloads)))%len(c11Policies)]
 		c11Normal(c, o, r, fn, wl.trees, wl.taxa, pol, rep)
 		return
